@@ -635,6 +635,14 @@ theorem cross_swarm_dependant_in_flight :
     Event.door "c1.net1" "unset" [("vm1", "p")] ["own"] true ∈ (resume exCross exX3 0 exPass 100).2 :=
   ⟨by decide +kernel, by decide +kernel, by decide +kernel⟩
 
+/-- why (2) speaks of executions in flight and not of placeholders on the dependants: the result of `c` (node 2) was never
+reported — `run_test_node` gives up after ten waits, defaults to ERROR and leaves the `UNKNOWN` placeholder in the node's
+results for ever; `c` is finished for the worker all the same, and the state of `p` is removed with the placeholder there -/
+theorem dependant_may_keep_unknown_placeholder :
+    ((exX13.nd 2).results.map (·.status) = ["UNKNOWN"] ∧ (exX13.nd 2).finished = some 0 ∧ pcNode (exX13.wd 0).pc = some 4) ∧
+    Event.door "c1.net1" "unset" [("vm1", "p")] ["own"] true ∈ (resume exCross exX13 0 exPass 100).2 :=
+  ⟨by decide +kernel, by decide +kernel⟩
+
 example : ReachC exCross 4 [] exX3 :=
   reachC_runSched exCross 4 [] 100 (by decide) _ (by decide) _ ReachC.init
 
